@@ -344,6 +344,15 @@ def r53_point_branches(ctx, res):
         okD = bool(done) and all(g.nodes[y].kind == "return" and txt(g.nodes[y].ast.value) == "True" for y in done)
         early = any(g.nodes[y].kind == "return" and txt(g.nodes[y].ast.value) == "True" and h.id in g.nodes[y].loops
                     for y in g.nodes)
+        # every accepting return of the Point branch lies behind the completed loop
+        smp = eng.summary(m, (S("ConvexPolyhedron"), S("Point")))
+        done_edges = {(h.id, y, "done") for y in done}
+        before = g.reach([g.entry], avoid_edges=done_edges)
+        for rn in g.nodes.values():
+            if rn.kind == "return" and rn.id in before and h.id not in rn.loops and smp is not None and id(rn.ast) in smp.reached \
+                    and not (isinstance(rn.ast.value, ast.Constant) and rn.ast.value.value is False):
+                early = True
+                early_node = rn
         if rej and okD and not early:
             deps = cond_deps(ctx, m, rej[0].ast)
             if other in deps:
@@ -384,6 +393,72 @@ def r54_pure(ctx, res):
     ctx.require(res, "R5.4", n, 9, "membership predicates")
 
 
+def r55_inclusive_thresholds(ctx, res, cnames=("Line", "Plane", "Segment", "HalfLine", "ConvexPolygon", "ConvexPolyhedron"), rule="R5.5", minimum=4):
+    """boundary points count as contained: every ordering comparison of a computed quantity that decides
+    `Point in S` must leave a tolerance margin (its threshold depends on the live get_eps()); a comparison with an
+    exact threshold (`< 0`) rejects boundary points whose signed distance is float noise"""
+    from ..types import S
+    from .c15 import cond_deps
+    eng = ctx.types
+    n = 0
+    for cname in cnames:
+        m = ctx.repo.cls(cname).lookup("__contains__")
+        sm = eng.summary(m, (S(cname), S("Point")))
+        if sm is None:
+            raise AnalysisError("%s.__contains__ was not evaluated on a Point" % cname)
+        seen = set()
+        g = ctx.cfg(m)
+        for st in walk_local(m.node):
+            if not isinstance(st, ast.stmt) or id(st) not in sm.reached:
+                continue
+            # only the statement's own expressions (nested statements are visited on their own)
+            exprs = []
+            if isinstance(st, (ast.If, ast.While)):
+                exprs = [st.test]
+            elif isinstance(st, (ast.Return, ast.Assign, ast.AugAssign, ast.Expr)) and getattr(st, "value", None) is not None:
+                exprs = [st.value]
+            for ex in exprs:
+                for c in ast.walk(ex):
+                    if not isinstance(c, ast.Compare) or id(c) in seen:
+                        continue
+                    seen.add(id(c))
+                    if not all(isinstance(o, (ast.Lt, ast.LtE, ast.Gt, ast.GtE)) for o in c.ops):
+                        continue
+                    sides = [c.left] + list(c.comparators)
+                    # integer bookkeeping (len(), indices) is not a geometric threshold
+                    if any(isinstance(x, ast.Call) and isinstance(x.func, ast.Name) and x.func.id in ("len", "range") for sd in sides for x in ast.walk(sd)):
+                        continue
+                    tys = [set(map(str, eng.types_at(m, sd))) for sd in sides]
+                    if not all(t <= {"num", "bool"} and t for t in tys):
+                        continue
+                    if isinstance(st, (ast.If, ast.While)):
+                        # a branching test decides membership only if one of its outcomes rejects directly
+                        # (return False / flag = False); an exact pre-check that falls through to the tolerant test is harmless
+                        rejecting = False
+                        for cn in g.conds():
+                            if cn.ast is c or any(x is c for x in ast.walk(cn.ast)):
+                                for y, _l in g.succ[cn.id]:
+                                    ya = g.nodes[y].ast
+                                    if g.nodes[y].kind == "return" and isinstance(ya.value, ast.Constant) and ya.value.value is False:
+                                        rejecting = True
+                                    if isinstance(ya, ast.Assign) and isinstance(ya.value, ast.Constant) and ya.value.value is False:
+                                        rejecting = True
+                        if not rejecting:
+                            continue
+                    n += 1
+                    deps = set()
+                    for sd in sides:
+                        deps |= cond_deps(ctx, m, sd)
+                    ok = "get_eps" in deps
+                    res.ob(rule, m.where(c), "Point in %s: `%s`" % (cname, txt(c)[:60]), ok,
+                           "threshold depends on the live tolerance get_eps()" if ok else "exact threshold: no tolerance margin")
+                    if not ok:
+                        res.violation(rule, m, c, "`Point in %s` decides with the exact comparison `%s`: points on the boundary (where the "
+                                      "compared quantity is zero up to float noise) are rejected, but boundary points count as contained"
+                                      % (cname, txt(c)[:60]), construct="Point in %s: exact threshold `%s`" % (cname, txt(c)[:40]))
+    ctx.require(res, rule, n, minimum, "threshold comparisons in the Point branches")
+
+
 def run(ctx, res):
     res.explanation = (
         "Abstract evaluation of S.__contains__(x) for the 18 supported operand-type pairs (isinstance branches, "
@@ -401,4 +476,5 @@ def run(ctx, res):
     r52(ctx, res, resolved)
     r53_point_branches(ctx, res)
     r54_pure(ctx, res)
+    r55_inclusive_thresholds(ctx, res)
     res.undecided_ob("numerical truth of Point-in-S predicates (which side of an oblique edge), inclusive boundaries, tolerance band")
